@@ -127,6 +127,42 @@ mod imp {
         pub len: usize,
         /// extra query bytes appended to `path_of(token)` (medium-frame streams vary the query length)
         pub qpad: usize,
+        /// which client entry point sends it: 0 = *_with_formats (raw body), 1 = call_typed_slice::<u8> (the body on the wire
+        /// is the BEVE typed-array header followed by the same pattern bytes; TCP clients, calls only)
+        pub api: u8,
+    }
+
+    /// BEVE typed-array header for `n` u8 elements (tag byte + compressed size), written out independently of the library.
+    pub fn u8_array_prefix(n: usize) -> Vec<u8> {
+        let mut v = vec![u8_array_tag()];
+        let n = n as u64;
+        if n < 64 {
+            v.push((n << 2) as u8);
+        } else if n < 16384 {
+            v.extend_from_slice(&(((n << 2) | 1) as u16).to_le_bytes());
+        } else if n < (1 << 30) {
+            v.extend_from_slice(&(((n << 2) | 2) as u32).to_le_bytes());
+        } else {
+            v.extend_from_slice(&((n << 2) | 3).to_le_bytes());
+        }
+        v
+    }
+    fn u8_array_tag() -> u8 {
+        // typed array (type 4), unsigned integer class (2 << 3), byte-count exponent 0 (1 byte): 0b000_10_100
+        0b0001_0100
+    }
+    /// Anchor the hand-written header on the library's own encoder for one length per size class.
+    pub fn u8_array_prefix_self_check() -> Result<(), String> {
+        for n in [0usize, 1, 63, 64, 16383, 16384, 70000] {
+            let data = vec![0xA5u8; n];
+            let body = repe::Message::builder().body_typed_slice(&data).build().body;
+            let mut want = u8_array_prefix(n);
+            want.extend_from_slice(&data);
+            if body != want {
+                return Err(format!("BEVE u8 array header for {n} elements: harness {:02x?} vs library {:02x?}", &want[..want.len().min(10)], &body[..body.len().min(10)]));
+            }
+        }
+        Ok(())
     }
 
     pub fn path_of(token: u64) -> String {
@@ -502,8 +538,13 @@ mod imp {
              frames with query+body 8100..8300 densely covering 8145..=8192, plus 4/8/16 KiB±1, that fills the pipe of a stalled peer until a \
              write is interrupted, then more sends while still stalled), then FURTHER traffic after the peer drained; oracle = \
              sequential walk: frame* · optional strict prefix of one frame with nothing after it, each frame byte-equal to one submitted \
-             message (body = f(token, offset)), conservation, one frame per WebSocket message; distinct = (endpoint, fault, workload shape hash)",
+             message (body = f(token, offset)), conservation, one frame per WebSocket message; every third client call goes out through call_typed_slice (BEVE u8 array of the same pattern bytes) instead of *_with_formats; distinct = (endpoint, fault, workload shape hash)",
         );
+        let mut rep = rep;
+        if let Err(e) = u8_array_prefix_self_check() {
+            rep.inconclusive(format!("harness: {e}"));
+            return rep;
+        }
         let rep = Mutex::new(rep);
         let tally = Mutex::new(Tally::default());
         let hb = Heartbeat::start();
@@ -611,4 +652,4 @@ mod imp {
 }
 
 #[cfg(feature = "net")]
-pub use imp::{ConnOut, Cx, MedEvidence, Op, ScenarioOut, WINDOW, med_split, med_sums, path_of, path_of_op, pick_len, size_class};
+pub use imp::{ConnOut, Cx, MedEvidence, Op, ScenarioOut, WINDOW, med_split, med_sums, path_of, path_of_op, pick_len, size_class, u8_array_prefix};
